@@ -473,6 +473,23 @@ Definition check (c : case) : bool :=
 """
 
 
+# premises of the theorems and their statements, evaluated on the model's own output (text_tags = [])
+PRE2 = PRE.replace("Require Import XV.Str XV.Json XV.TextFormat XV.Forest XV.Path XV.XmlFmt.",
+                   "Require Import XV.Str XV.Json XV.TextFormat XV.Forest XV.Path XV.XmlFmt XV.Projections XV.XmlFmtProofs4 XV.XmlFmtProofs5.")
+PRE2 = PRE2[:PRE2.index("Definition check (c : case)")] + """Definition check (c : case) : bool :=
+  let '(cf, late, alnum, space, L, R, rootns, pL, pR, gs, e) := c in
+  let o := Orc {| DMP.isalnum := fun c => existsb (N.eqb c) alnum; DMP.isspace := fun c => existsb (N.eqb c) space |}
+               (fun _ => late) in
+  let '(s, L', R') := prepare cf L R in
+  match xml_format cf o rootns s gs L' with
+  | FOk t =>
+      (c_replace cf || run_okb cf o rootns (FS L' s [(Some DIFF_PREFIX, DIFF_NS)]) gs) &&
+      xequivb (ws_text cf) (accept t) R' && xequiv_rb (ws_text cf) (reject t) L'
+  | FErr _ => true
+  end.
+"""
+
+
 def cs(s):
     return "[" + ";".join(str(ord(ch)) for ch in s) + "]"
 
@@ -617,12 +634,100 @@ def gen_known():
     return out
 
 
+OWN = "urn:example:revisions"
+
+
+def gen_prefixes(rng, n):
+    """documents that bind the formatter's own prefix `diff` (and lxml's ns0) to namespaces of their own, on the root,
+    and use them for elements and attributes"""
+    out = []
+    fixed = [
+        ('<root xmlns:diff="%s"><diff:item>hello</diff:item><x>y</x></root>' % OWN,
+         '<root xmlns:diff="%s"><diff:item>hello world</diff:item><x>z</x></root>' % OWN),
+        ('<root xmlns:diff="%s"><diff:sec><diff:p a="1">one two three</diff:p><diff:p>four five six</diff:p></diff:sec></root>' % OWN,
+         '<root xmlns:diff="%s"><diff:sec><diff:p>four five six</diff:p><diff:p a="2">one two three</diff:p><diff:q>seven</diff:q></diff:sec></root>' % OWN),
+        ('<r xmlns:ns0="urn:n" xmlns:diff="%s"><ns0:a><diff:b/>t</ns0:a><diff:b diff:k="1"/></r>' % OWN,
+         '<r xmlns:ns0="urn:n" xmlns:diff="%s"><diff:b diff:k="2"><ns0:a>t</ns0:a></diff:b><ns0:c/></r>' % OWN),
+    ]
+    for l, r in fixed:
+        for norm in (WS_NONE, WS_BOTH):
+            out.append({"kind": "prefixes", "left": l, "right": r,
+                        "cfg": {"normalize": norm, "replace": False, "tt": [], "fmt": []}, "opts": {}, "late": False})
+    nsmap = {"diff": OWN, "ns0": "urn:n"}
+    tags = ["a", "{%s}item" % OWN, "{%s}p" % OWN, "{urn:n}b"]
+    for _ in range(n):
+        def mk(k):
+            root = etree.Element(rng.choice(tags), nsmap=nsmap)
+            nodes = [root]
+            for _ in range(k - 1):
+                e = etree.SubElement(rng.choice(nodes), rng.choice(tags))
+                if rng.random() < 0.3:
+                    e.set(rng.choice(["i", "{%s}k" % OWN]), rng.choice("12"))
+                if rng.random() < 0.3:
+                    e.text = rng.choice(WORDS)
+                if rng.random() < 0.2:
+                    e.tail = rng.choice(WORDS)
+                nodes.append(e)
+            return root
+        L = mk(rng.randint(2, 7))
+        R = gen.mutate_tree(rng, L, tags=tags[:3], attrs=("i", "j")) if rng.random() < 0.7 else mk(rng.randint(2, 7))
+        out.append({"kind": "prefixes", "left": xml(L), "right": xml(R), "cfg": rand_cfg(rng), "opts": rng.choice(gen.OPTION_SETS[:4]),
+                    "late": False})
+    return out
+
+
+LWORDS = ["alpha", "beta", "gamma", "delta", "epsilon", "zeta", "eta", "theta"]
+
+
+def gen_lines(rng, n):
+    """long multi-line text nodes and tails (more than 100 characters on both sides: diff_lineMode), in which
+    several separate groups of lines change at once"""
+    def listing(k):
+        return ["row %d: %s\n" % (i, " ".join(rng.choice(LWORDS) for _ in range(4))) for i in range(k)]
+
+    def wrap_text(lines):
+        return "<doc><title>Listing</title><pre>%s</pre><note>end</note></doc>" % "".join(lines)
+
+    def wrap_tail(lines):
+        return "<doc><head/>%s<foot/></doc>" % "".join(lines)
+    out = []
+    base = listing(16)
+    edit = list(base)
+    del edit[1]
+    edit[7] = "changed 8 two two\n"
+    del edit[13]
+    fixed = [(wrap_text(base), wrap_text(edit), False), (wrap_tail(base), wrap_tail(edit), False),
+             (wrap_text(base), wrap_text(edit), True)]
+    for l, r, rep in fixed:
+        out.append({"kind": "lines", "left": l, "right": r,
+                    "cfg": {"normalize": WS_NONE, "replace": rep, "tt": [], "fmt": []}, "opts": {}, "late": False})
+    for _ in range(n):
+        lines = listing(rng.randint(12, 18))
+        new = list(lines)
+        for _ in range(rng.randint(2, 5)):
+            k = rng.choice(["del", "rew", "ins"])
+            i = rng.randrange(len(new))
+            if k == "del" and len(new) > 8:
+                del new[i]
+            elif k == "rew":
+                new[i] = "changed %d %s\n" % (i, rng.choice(LWORDS))
+            else:
+                new.insert(i, "new %s\n" % rng.choice(LWORDS))
+        w = wrap_text if rng.random() < 0.6 else wrap_tail
+        out.append({"kind": "lines", "left": w(lines), "right": w(new),
+                    "cfg": {"normalize": rng.choice([WS_NONE, WS_NONE, WS_TEXT]), "replace": rng.random() < 0.3, "tt": [], "fmt": []},
+                    "opts": {}, "late": rng.random() < 0.2})
+    return out
+
+
 def gen_inputs(run, rng):
     quick = run.tier == "quick"
     cases = gen_exhaustive(3 if quick else 4)
     nexh = len(cases)
     cases += gen_known()
     cases += gen_texts(rng, quick)
+    cases += gen_prefixes(rng, 30 if quick else 300)
+    cases += gen_lines(rng, 5 if quick else 60)
     cases += gen_struct(rng, 500 if quick else 5000)
     cases += gen_texttags(rng, 500 if quick else 5000)
     # scripts that do not fit the tree (error paths of _xpath and of the attribute handlers)
@@ -688,11 +793,32 @@ def main(run, focus):
                     except OSError:
                         pass
         bad = [idx[i] for i in b]
+    # premises (run_ok) and statements (C09 / C10) evaluated on the model, configurations without text tags
+    idx2 = [i for i in idx if not cases[i]["cfg"]["tt"] and cases[i]["kind"] not in ("mutated", "known") and "out" in cases[i]
+            and not has_comment_tail(cases[i]["left"], cases[i]["right"])]
+    bad2, log2 = [], ""
+    if pinfo.get("build_ok"):
+        cname2 = "%sp%s%d" % (focus, run.tier[0], os.getpid())
+        try:
+            b2, log2 = lib.run_cases(cname2, PRE2, [coq_case(cases[i]) for i in idx2], chunk=max(40, len(idx2) // 40 + 1))
+        finally:
+            for f in os.listdir(lib.CASES):
+                if f.startswith(cname2 + "_") or f.startswith("." + cname2 + "_"):
+                    try:
+                        os.unlink(os.path.join(lib.CASES, f))
+                    except OSError:
+                        pass
+        bad2 = [idx2[i] for i in b2]
+    run.log("premises/statements on the model: %d cases, %d failures" % (len(idx2), len(bad2)))
     run.log("correspondence: %d cases (%d inputs outside the model or without a script), %d disagreements; "
             "oracle %s: %d inputs judged, %d violations (%d under a recorded finding)"
             % (len(idx), len(cases) - len(idx), len(bad), focus, judged, len(viols), nknown))
     corr = [{"name": "XMLFormatter.prepare + format (every handler, _xpath, _make_diff_tags, finalize) vs XV.XmlFmt",
-             "cases": len(idx), "bad": bad, "log": log, "describe": lambda i: describe(cases[i])}]
+             "cases": len(idx), "bad": bad, "log": log, "describe": lambda i: describe(cases[i])},
+            {"name": "TESTED premise run_ok (text updated once, renamed once, plain action strings) and the statements of C09 "
+                     "(accept T ~ prepared right) / C10 (reject T ~r prepared left, attributes included) evaluated on the "
+                     "model's output, configurations without text tags",
+             "cases": len(idx2), "bad": bad2, "log": log2, "describe": lambda i: describe(cases[i])}]
 
     def deeper():
         r2 = random.Random(run.seed + 7)
@@ -723,7 +849,9 @@ def main(run, focus):
         "rule": "every pair of element trees with <= %d nodes over tags {a,b} under the default configuration [%d, exhaustive]; "
                 "small documents whose text and tail run over critical strings (None, blanks, shared prefixes/suffixes) under all "
                 "normalize x use_replace settings; seeded document pairs (<= 8 nodes; attributes, texts, tails, comments with tails, "
-                "namespaces declared on the root) with random normalize/use_replace and random Differ options; seeded mixed-content "
+                "namespaces declared on the root) with random normalize/use_replace and random Differ options; documents that bind "
+                "the formatter's own prefix `diff` (and ns0) to their own namespaces; long multi-line texts and tails (> 100 "
+                "characters: diff_lineMode) with several groups of changed lines; seeded mixed-content "
                 "documents (tags %s) with random text_tags/formatting_tags subsets; the differ's scripts mutated (wrong paths, "
                 "positions, attribute names) for the error paths; a labelled stream of inputs under the recorded findings.  DMP clock: "
                 "never late, or late at every test.  Compared exactly: both prepared trees (attribute order, None vs ''), the output "
